@@ -1,5 +1,6 @@
 import Acra.Drv.FTI
+import Acra.Drv.Net
 namespace Acra.Drv
-def allCodecs : List Codec := ftiCodecs
-def allFuncs : List Func := ftiFuncs
+def allCodecs : List Codec := ftiCodecs ++ NetC.netCodecs
+def allFuncs : List Func := ftiFuncs ++ NetC.netFuncs
 end Acra.Drv
